@@ -310,7 +310,7 @@ func genL4(r *rng.R) *l4Case {
 	case "get":
 		c.Dests = r.Pick([]string{"valid", "valid", "valid", "invalid", "none", "outcome+valid", "niloutcome+valid", "outcome", "outcome+invalid", "validmap"})
 	case "getall":
-		c.Dests = r.Pick([]string{"valid", "valid", "validptr", "validcap", "validmap", "invalid", "none", "nonptr", "nilptr", "ptrnonslice", "sliceint", "sliceptrint"})
+		c.Dests = r.Pick([]string{"valid", "valid", "validptr", "validcap", "validmap", "validnil", "invalid", "none", "nonptr", "nilptr", "ptrnonslice", "sliceint", "sliceptrint"})
 	case "iter":
 		n := 1 + r.Intn(8)
 		for i := 0; i < n; i++ {
@@ -321,6 +321,9 @@ func genL4(r *rng.R) *l4Case {
 		}
 		if c.Ctx == "marker" && c.HasOutputs && r.Chance(1, 5) {
 			c.CancelAt = r.Intn(len(c.Calls))
+		}
+		if c.HasOutputs && r.Chance(1, 4) {
+			c.Dests = "validmap" // the rows are read into a map; the invalid argument is a pointer to a nil map
 		}
 	}
 	if c.Op == "getall" && r.Chance(1, 4) {
@@ -417,25 +420,26 @@ var modelledEvents = map[string]string{"prepare": "prepare", "exec": "exec", "qu
 	"rowsclose": "rowsClose", "stmtclose": "stmtClose", "begin": "begin", "commit": "commit", "rollback": "rollback"}
 
 type l4Obs struct {
-	Returns      []string       `json:"returns"` // per call / per operation result, symbolic
-	Events       []string       `json:"events"`
-	EventCtx     []string       `json:"eventCtx"`  // ctx info of prepare/exec/query events
-	EventConn    []int          `json:"eventConn"` // conn of every modelled event
-	InUse        int            `json:"inUse"`
-	OpenRows     int            `json:"openRows"`
-	DoubleClose  int            `json:"doubleClose"`
-	ClosedUse    int            `json:"closedUse"`
-	Stored       int64          `json:"stored"`    // Get: Row.A after the call
-	Prior        bool           `json:"priorKept"` // GetAll: prior elements unchanged
-	Appended     []int64        `json:"appended"`
-	Outcome      string         `json:"outcome"` // "" none, "nil", "r:<rows affected>"
-	Finish       []string       `json:"finish"`
-	Winners      int            `json:"winners"`
-	PreReturn    string         `json:"preReturn"`
-	RowsFaithful bool           `json:"rowsFaithful"`
-	BeginConn    int            `json:"beginConn"`
-	Panic        string         `json:"panic,omitempty"`
-	Extra        map[string]any `json:"extra,omitempty"`
+	Returns          []string       `json:"returns"` // per call / per operation result, symbolic
+	Events           []string       `json:"events"`
+	EventCtx         []string       `json:"eventCtx"`  // ctx info of prepare/exec/query events
+	EventConn        []int          `json:"eventConn"` // conn of every modelled event
+	InUse            int            `json:"inUse"`
+	OpenRows         int            `json:"openRows"`
+	OpenRowsAtReturn int            `json:"openRowsAtReturn"`
+	DoubleClose      int            `json:"doubleClose"`
+	ClosedUse        int            `json:"closedUse"`
+	Stored           int64          `json:"stored"`    // Get: Row.A after the call
+	Prior            bool           `json:"priorKept"` // GetAll: prior elements unchanged
+	Appended         []int64        `json:"appended"`
+	Outcome          string         `json:"outcome"` // "" none, "nil", "r:<rows affected>"
+	Finish           []string       `json:"finish"`
+	Winners          int            `json:"winners"`
+	PreReturn        string         `json:"preReturn"`
+	RowsFaithful     bool           `json:"rowsFaithful"`
+	BeginConn        int            `json:"beginConn"`
+	Panic            string         `json:"panic,omitempty"`
+	Extra            map[string]any `json:"extra,omitempty"`
 }
 
 func waitFor(cond func() bool) {
@@ -680,8 +684,11 @@ func runL4Case(c *l4Case) (obs *l4Obs) {
 			rows[0] = Row{A: 100, B: "prior"}
 		}
 		ms := []sqlair.M{{"a": int64(100), "b": "prior"}}
+		var nilRows []Row // stays nil unless GetAll succeeds
 		var args []any
 		switch c.Dests {
+		case "validnil":
+			args = []any{&nilRows}
 		case "validmap":
 			args = []any{&ms}
 		case "valid", "validcap":
@@ -704,8 +711,19 @@ func runL4Case(c *l4Case) (obs *l4Obs) {
 		if c.GAOutcome {
 			args = append([]any{&sqlair.Outcome{}}, args...)
 		}
-		obs.Returns = append(obs.Returns, errText(qr.GetAll(args...)))
-		if c.Dests == "validmap" {
+		gaErr := qr.GetAll(args...)
+		obs.Returns = append(obs.Returns, errText(gaErr))
+		if c.Dests == "validnil" {
+			// nothing was there before: on any error the slice is still nil (not an empty
+			// slice), on success it holds exactly the rows
+			obs.Prior = gaErr == nil || nilRows == nil
+			for _, r := range nilRows {
+				obs.Appended = append(obs.Appended, r.A)
+				if !faithful(r, r.A) {
+					obs.RowsFaithful = false
+				}
+			}
+		} else if c.Dests == "validmap" {
 			obs.Prior = len(ms) >= 1 && len(ms[0]) == 2 && ms[0]["a"] == int64(100) && ms[0]["b"] == "prior"
 			for _, m := range ms[1:] {
 				id, _ := m["a"].(int64)
@@ -754,7 +772,14 @@ func runL4Case(c *l4Case) (obs *l4Obs) {
 				obs.Returns = append(obs.Returns, fmt.Sprint(it.Next()))
 			case "get":
 				var row Row
-				e := it.Get(&row)
+				var e error
+				if c.Dests == "validmap" {
+					m := sqlair.M{}
+					e = it.Get(m)
+					row.A, _ = m["a"].(int64)
+				} else {
+					e = it.Get(&row)
+				}
 				if e == nil {
 					obs.Returns = append(obs.Returns, fmt.Sprintf("row:%d", row.A))
 				} else {
@@ -777,13 +802,23 @@ func runL4Case(c *l4Case) (obs *l4Obs) {
 				var oc *sqlair.Outcome
 				obs.Returns = append(obs.Returns, errText(it.Get(oc)))
 			case "getinvalid":
-				obs.Returns = append(obs.Returns, errText(it.Get(&Unrelated{})))
+				if c.Dests == "validmap" {
+					var nm sqlair.M
+					obs.Returns = append(obs.Returns, errText(it.Get(&nm)))
+				} else {
+					obs.Returns = append(obs.Returns, errText(it.Get(&Unrelated{})))
+				}
 			case "getnone":
 				obs.Returns = append(obs.Returns, errText(it.Get()))
 			case "close":
 				obs.Returns = append(obs.Returns, errText(it.Close()))
 			}
 		}
+	}
+	// the result set the call opened is closed when the call returns (Get, GetAll, Run) or
+	// when Close returns - also inside a transaction, which keeps its connection
+	if c.Op != "iter" || (len(c.Calls) > 0 && c.Calls[len(c.Calls)-1] == "close") {
+		obs.OpenRowsAtReturn = st.OpenRows()
 	}
 	if onTx && c.TxEnd == "after" {
 		if c.BeginCancel {
@@ -836,7 +871,7 @@ func runL4Case(c *l4Case) (obs *l4Obs) {
 	return obs
 }
 
-var l4Props = []string{"C06", "C09", "C12", "C13", "C14", "C15", "C20"}
+var l4Props = []string{"C05", "C06", "C09", "C12", "C13", "C14", "C15", "C20"}
 
 func runL4(args []string) {
 	fs := flag.NewFlagSet("l4", flag.ExitOnError)
